@@ -558,8 +558,55 @@ pub fn case_strategy() -> BoxedStrategy<DriftCase> {
         .boxed()
 }
 
+/// Exhaustive small scope: every edit script of at most two single-line operations (add a line, delete a
+/// line at a gap, replace a line) at every position of a fixed nine-line file with a nested pair of blocks,
+/// the outer one linked to the inner one, under -U0 and -U3.
+pub fn small_scope_cases() -> Vec<DriftCase> {
+    let py = SUFFIXES.iter().position(|(s, _)| *s == "py").unwrap();
+    let items = vec![
+        Item::Code(0),
+        Item::Open { name: Some(0), affects: vec![Ref { file: None, name: 1 }], form: 0, multiline: false, indent: 0, tag_lines: false },
+        Item::Code(0),
+        Item::Open { name: Some(1), affects: vec![], form: 0, multiline: false, indent: 0, tag_lines: false },
+        Item::Code(0),
+        Item::Close { form: 0, indent: 0 },
+        Item::Code(0),
+        Item::Close { form: 0, indent: 0 },
+        Item::Code(0),
+    ];
+    let n = 9usize;
+    let at = |p: usize, len: usize| -> u16 { ((p * 65536).div_ceil(len)).min(65535) as u16 };
+    let mut ops: Vec<Edit> = vec![];
+    for p in 0..n {
+        ops.push(Edit::Add { at: at(p, n), k: 1 });
+        ops.push(Edit::Rep { at: at(p, n) });
+    }
+    for g in 0..=n {
+        ops.push(Edit::Del { at: at(g, n + 1), k: 1 });
+    }
+    let mut scripts: Vec<Vec<Edit>> = ops.iter().map(|o| vec![o.clone()]).collect();
+    for a in &ops {
+        for b in &ops {
+            scripts.push(vec![a.clone(), b.clone()]);
+        }
+    }
+    let mut out = vec![];
+    for sc in scripts {
+        for unified in [0u8, 3] {
+            out.push(DriftCase {
+                files: vec![DFile { suffix: py, dir: 0, items: items.clone(), edits: sc.clone(), fate: 0, no_trailing_newline: false }],
+                mode: DiffMode { unified, kind: 0, algo: 0, renames: false },
+                hostile: false,
+                deleted_extra_file: false,
+                extras: 0,
+            });
+        }
+    }
+    out
+}
+
 pub fn run(run: &mut Run) {
-    run.rule = "random: 1..4 files of random suffixes (root or sub-directories, one with a space), each a balanced list of own-line tag comments (any comment form of the language, 15% multi-line comments, 12% start tags spread over several lines, indentation), blocks named from a pool of 5 (duplicates, unnamed) with affects lists of 1..3 references (same file, other file, missing file, missing name, cycles) and code lines; an edit script of 0..8 operations on new-side lines (add k lines, delete k lines at a gap, replace a line incl. tag lines) from which the old state is derived; file fates modified / renamed / new / untouched / an extra deleted file; in 25% further entries in the same diff (a binary file, an added empty file, a changed file of unknown suffix holding unbalanced tags, a file emptied); hostile removed lines (`-- x`, `--- a/f`, `@@ -1 +1 @@`, …) in 10%; missing trailing newline in 15%; real git in a generated mode (-U0..10, unstaged/--cached/HEAD/commit-to-commit, 4 diff algorithms, -M). Oracle part 1: flag per block from an independent reader of git's diff (must / must-not / unspecified zones), part 2: affects diagnostics = reference model over the listed flags, exit status; part 3: after touching every linked block the run passes. Non-trivial = a file with >= 2 hunks, a must-modified block with affects and a must-not block.".into();
+    run.rule = "enumerated small scope: every edit script of <= 2 single-line operations at every position of a fixed nine-line Python file with nested, linked blocks under -U0 and -U3 (1 624 cases). random: 1..4 files of random suffixes (root or sub-directories, one with a space), each a balanced list of own-line tag comments (any comment form of the language, 15% multi-line comments, 12% start tags spread over several lines, indentation), blocks named from a pool of 5 (duplicates, unnamed) with affects lists of 1..3 references (same file, other file, missing file, missing name, cycles) and code lines; an edit script of 0..8 operations on new-side lines (add k lines, delete k lines at a gap, replace a line incl. tag lines) from which the old state is derived; file fates modified / renamed / new / untouched / an extra deleted file; in 25% further entries in the same diff (a binary file, an added empty file, a changed file of unknown suffix holding unbalanced tags, a file emptied); hostile removed lines (`-- x`, `--- a/f`, `@@ -1 +1 @@`, …) in 10%; missing trailing newline in 15%; real git in a generated mode (-U0..10, unstaged/--cached/HEAD/commit-to-commit, 4 diff algorithms, -M). Oracle part 1: flag per block from an independent reader of git's diff (must / must-not / unspecified zones), part 2: affects diagnostics = reference model over the listed flags, exit status; part 3: after touching every linked block the run passes. Non-trivial = a file with >= 2 hunks, a must-modified block with affects and a must-not block.".into();
     run.assumptions = vec![
         "file names avoid characters git C-quotes".into(),
         "mixed -/+ groups count through their added lines only (removed lines of a mixed group are not asserted: see K2 in DESIGN.md)".into(),
@@ -567,6 +614,7 @@ pub fn run(run: &mut Run) {
     ];
     run.sentinel("K1", "drift", check);
     run.sentinel("K3", "drift", check);
+    run.enumerate("small-scope", small_scope_cases(), Some("all edit scripts of <= 2 single-line operations (add / delete at a gap / replace, every position) on a fixed nine-line file with a nested, linked pair of blocks x -U0 / -U3"), check);
     run.shrink_iters = 250;
     run.random("drift", run.tier.pick(1500, 40000), case_strategy, check);
 }
